@@ -31,7 +31,7 @@ MALFORMED = ['=(1', '=', '=*1', '=1+', '=+', '=()', '=SUM(', '=SUM()', '=SUM(1,)
              '=IF(A1>3;"the total exceeds the configured limit for this period', '=CONCATENATE(A1;" units in stock, reorder level is ;A1;A1)',
              '=A1&"' + 'x' * 40, '="a"&"b"&"' + 'tail without a closing quote ' * 2,
              '=IF(,,)', '=SUM(A1:A2:A3)', '=--', '=1--', '=MATCH(1)', '=XMATCH(1)', '=SEARCH("a")', '=TEXT(1)', '=VALUE()', '=CONCATENATE()', '=YEAR()', '=COUNTIFS(A1:A2)']
-REFS = ['=Nope!A1', "='No such'!B2", '=A0', '=AAAA1', '=A1048577', '=XFE1', '=ZZZ99999', '=Other!ZZ9', '=A0:B2', '=A1:B0', '=SUM(A0:A2)', '=A:A', '=A:B', '=1:1', '=Other!A:A',
+REFS = ['=SUMIF(D1:A1,">1",A2)', '=SUMIF(C1:A1,">0",B2)', '=SUMIF(B3:A3,"y",A2)', '=SUMIF(C:A,">0",A:A)', '=SUM(B2:A1)', '=SUMIFS(B2:A1,B2:A1,">0")', '=VLOOKUP(1,B2:A1,1,0)', '=COUNTBLANK(B2:A1)', '=Nope!A1', "='No such'!B2", '=A0', '=AAAA1', '=A1048577', '=XFE1', '=ZZZ99999', '=Other!ZZ9', '=A0:B2', '=A1:B0', '=SUM(A0:A2)', '=A:A', '=A:B', '=1:1', '=Other!A:A',
         '=C3', '=C4', '=SUM(C3:C4)']                  # C3/C4 are written as a cycle when this family is chosen
 SOUP = ['1', 'A1', '+', '-', '*', '/', '&', '<', '>=', '<>', '=', '%', '(', ')', ',', ';', '"x"', 'SUM(', 'IF(', 'TRUE', 'A1:B2', ':', '!', '$', '.', 'e', ' ']
 TEXTS = ['plain', "it's", 'say "hi"', 'a\\b', 'line1\nline2', '{name}', 'total: {0}', 'a}b', '{{x}}', '{titles}', '%s %d', '#comment', 'tab\there', 'éü中', "'''", '"""', '\\', '']
@@ -266,7 +266,8 @@ def corpus():
         rc = gen_recipe(rng, 'valid')
         rc['cells']['K1'] = ['text', t]
         rs.append(rc)
-    for f in ['=SUMIF(A1:A2,">007")', '=COUNTIFS(A1:A2,"<=010")', '=SUMIFS(B1:B2,A1:A2,"<>0012")', '=AVERAGEIFS(B1:B2,A1:A2,">=00")']:
+    for f in ['=SUMIF(A1:A2,">007")', '=COUNTIFS(A1:A2,"<=010")', '=SUMIFS(B1:B2,A1:A2,"<>0012")', '=AVERAGEIFS(B1:B2,A1:A2,">=00")',
+              '=COUNTIFS(A1:A2,">\u0663.\u0665")', '=SUMIF(A1:A2,"<\u0661")']:                  # non-ASCII digits in a criterion (fixed by c26138d)
         rc = gen_recipe(rng, 'valid')          # a criterion number written with leading zeros (fixed by b21d900)
         rc['cells']['C1'] = f
         rc['probe'] = f
